@@ -16,6 +16,10 @@ def base_desc(rnd, kind="dio"):
     d = dict(vendor_id=rnd.randint(1, 0xFFFFFF), product_id=rnd.randint(1, 0xFFFFFF), revision=rnd.randint(0, 0xFFFF),
              serial=rnd.randint(0, 0xFFFFFF), alias=rnd.choice([0, 0x1234, 0xFFFF, rnd.randint(0, 0xFFFF)]),
              order="DUT%d" % rnd.randint(0, 99), name="Device under test", group="Tests", size_kbit=rnd.choice([8, 16, 32]))
+    # the rest of the header the checksum covers: any values (most real images have zeros in the reserved words)
+    if rnd.random() < 0.6:
+        d.update(pdi_config=rnd.randint(0, 0xFFFF), sync_impulse_len=rnd.randint(0, 0xFFFF), pdi_config2=rnd.randint(0, 0xFFFF),
+                 reserved_words=[rnd.choice([0, rnd.randint(1, 0xFFFF)]), rnd.choice([0, 0xFFFF, rnd.randint(1, 0xFFFF)])])
     if kind == "dio":
         d.update(sync_managers=[dict(start=0x1100, length=2, control=0x64, enable=1, usage=3),
                                 dict(start=0x1180, length=3, control=0x20, enable=1, usage=4)],
